@@ -73,10 +73,10 @@ SCENARIOS = {
     "all2": dict(td=("t1", "t2"), tags=("s1", "s2"), en=("e1",), k=("k1",), fn=("f1",), gv=("g1",),
                  prims=("int", "char"), feat=("file", "fwd"), n=2),
     "consts3": dict(NONE, td=("t1",), en=("e1",), k=("k1",), fn=("f1",), gv=("g1",), n=3),
-    "rich2": dict(NONE, td=("t1", "t2"), tags=("s1",), fn=("f1",), gv=("g1",),
-                  feat=("anon", "bits", "arr", "fnp", "pp", "union", "nested"), n=2),
+    "rich2": dict(NONE, td=("t1",), tags=("s1",), fn=("f1",),
+                  feat=("anon", "bits", "arr", "fnp", "nested", "union"), n=2),
     "types3": dict(NONE, td=("t1", "t2"), tags=("s1",), feat=("file", "fwd"), n=3),
-    "all3": dict(NONE, td=("t1",), tags=("s1",), en=("e1",), k=("k1",), fn=("f1",), gv=("g1",), feat=("file",), n=3),
+    "all3": dict(NONE, td=("t1",), tags=("s1",), en=("e1",), k=("k1",), fn=("f1",), n=3),
 }
 
 _TUP = {}
